@@ -15,6 +15,7 @@ import (
 	"time"
 
 	tpl "code.gopub.tech/tpl"
+	"code.gopub.tech/tpl/html"
 	"code.gopub.tech/tpl/types"
 )
 
@@ -145,6 +146,70 @@ func raceMain(args []string) {
 					if len(samples) < 5 {
 						samples = append(samples, J{"files": files, "tpl": names[g], "goroutines": G, "serial_round": round%3 == 0,
 							"alone": want[names[g]], "here": trunc(got[g], 200)})
+					}
+				}
+			}
+		}
+	} else if *mode == "types" {
+		// every goroutine has its OWN data, of a Go type of its own: the types print the same name and have the same-named
+		// fields at different positions, so anything the engine remembers per type name / per field name across executions
+		// (or across managers: a process-wide table) gives one execution another one's layout. Expected output is native.
+		for round := 0; round < *rounds; round++ {
+			ti := round % len(twinTpls)
+			m := html.NewTplManager()
+			if err := m.Add("t", strings.NewReader(twinTpls[ti])); err != nil {
+				fmt.Println("RACE-RESULT " + `{"executions":0,"mismatches":1,"samples":["twin-type template does not load"]}`)
+				return
+			}
+			shared, _ := m.GetTemplate("t")
+			G := 2 + r.n(10)
+			var wg sync.WaitGroup
+			start := make(chan struct{})
+			got, want := make([]string, G), make([]string, G)
+			kinds := make([]int, G)
+			datas := make([]map[string]any, G)
+			for g := 0; g < G; g++ {
+				kinds[g] = (g + round) % len(twinMk)
+				title, num := fmt.Sprintf("t%d", r.n(5)), r.n(90)
+				v := twinMk[kinds[g]](title, num)
+				datas[g] = map[string]any{"p": v, "ps": []any{v, twinMk[(kinds[g]+1+r.n(len(twinMk)-1))%len(twinMk)](title+"x", num+1)}}
+				want[g] = twinWant(ti, title, num)
+			}
+			for g := 0; g < G; g++ {
+				wg.Add(1)
+				go func(g int) {
+					defer wg.Done()
+					t := shared
+					if g%2 == 1 {
+						t, _ = m.GetTemplate("t")
+					}
+					if round%3 != 0 {
+						<-start
+					}
+					for k := 0; k < 3; k++ {
+						w := &chunkWriter{failAt: -1}
+						if err := t.Execute(w, datas[g]); err != nil {
+							got[g] = strings.Join(w.chunks, "") + " ERR " + err.Error()
+							return
+						}
+						got[g] = strings.Join(w.chunks, "")
+						if got[g] != want[g] {
+							return
+						}
+					}
+				}(g)
+				if round%3 == 0 {
+					wg.Wait()
+				}
+			}
+			close(start)
+			wg.Wait()
+			for g := 0; g < G; g++ {
+				total++
+				if got[g] != want[g] {
+					mismatches++
+					if len(samples) < 5 {
+						samples = append(samples, J{"tpl": twinTpls[ti], "data_type_variant": kinds[g], "goroutines": G, "serial_round": round%3 == 0, "alone": want[g], "here": trunc(got[g], 200)})
 					}
 				}
 			}
@@ -371,6 +436,9 @@ func propC15(c *ctx) error {
 		return err
 	}
 	if err := run("twins", c.n(30, 600)); err != nil {
+		return err
+	}
+	if err := run("types", c.n(30, 900)); err != nil {
 		return err
 	}
 	return run("render", c.n(120, 5000))
